@@ -62,6 +62,10 @@ def mdft2 (e : R → V) (m n M N : Nat) (αy αx sy sx : R) (norm : V) (f : Nat 
 def F1 (e : R → V) (n : Nat) (dx κ : R) (f : Nat → V) (ξ : R) : V :=
   Num.sumTo n fun i => f i * e (coord n i * dx * ξ * κ)
 
+/-- the 2-D physical focusing integral at continuous output coordinates `(η, ξ)` (separable) -/
+def F2 (e : R → V) (m n : Nat) (dx κ : R) (f : Nat → Nat → V) (η ξ : R) : V :=
+  F1 e m dx κ (fun j => F1 e n dx κ (f j) ξ) η
+
 /-- `k` waves of tilt across the `n` samples of an axis: `tilt_k[i] = e(-k (i - n//2)/n)` -/
 def tilt (e : R → V) (n : Nat) (k : R) (i : Nat) : V := e (-(k * coord n i / Num.ofInt (n : Int)))
 
